@@ -379,7 +379,12 @@ impl<'reg: 'rc, 'rc> Helper<'rc> {
         }
 
         let mut hm = BTreeMap::new();
-        for (k, p) in &ht.hash {
+        // the template keeps hash arguments in a `HashMap`, whose iteration order
+        // changes from one compilation to the next: evaluate them in key order so
+        // that which argument runs (or fails) first does not
+        let mut hash_entries: Vec<_> = ht.hash.iter().collect();
+        hash_entries.sort_by(|a, b| a.0.cmp(b.0));
+        for (k, p) in hash_entries {
             let r = p.expand(registry, context, render_context)?;
             hm.insert(k.as_ref(), r);
         }
@@ -524,7 +529,10 @@ impl<'reg: 'rc, 'rc> Decorator<'rc> {
         }
 
         let mut hm = BTreeMap::new();
-        for (k, p) in &dt.hash {
+        // in key order, as for helpers
+        let mut hash_entries: Vec<_> = dt.hash.iter().collect();
+        hash_entries.sort_by(|a, b| a.0.cmp(b.0));
+        for (k, p) in hash_entries {
             let r = p.expand(registry, context, render_context)?;
             hm.insert(k.as_ref(), r);
         }
